@@ -87,8 +87,10 @@ def universe_parts(chk, classic, quick_sizes, thorough_sizes, n_random, n_big, f
     for n in range(1, exhaustive_to + 1):
         # the full text alphabet for the smallest sizes, two texts beyond
         tx = texts if n <= 3 else G.TEXTS_SMALL
+        # thorough tier: the largest size has 10^5 .. 10^6 documents - every one of them, under a few configurations
+        ncfg = configs if (tier_q or n < exhaustive_to) else (G.CONFIGS_QUICK if not classic else [(5, 3, 4), (12, 1, 4)])
         for t in G.enum_terms(n, classic, tx, memo if tx is G.TEXTS_SMALL else None):
-            box['u'].add_term(t, configs, **flags)
+            box['u'].add_term(t, ncfg, **flags)
             nterms += 1
             if full():
                 yield flush()
